@@ -23,6 +23,15 @@ def ndf(rows):
     return {"t": "nd", "dt": "float64", "sh": sh, "v": [repr(float(x)) for x in flat]}
 
 
+def ndx(rows, dt):
+    """array literal of an unusual dtype: float32 / float16 (entries 0.0 / 1.0) or complex (entries 0j / (1+0j))"""
+    sh = [len(rows), len(rows[0])] if rows and isinstance(rows[0], (list, tuple)) else [len(rows)]
+    flat = [x for r in rows for x in r] if len(sh) == 2 else list(rows)
+    if dt.startswith("complex"):
+        return {"t": "nd", "dt": dt, "sh": sh, "v": [repr(complex(x)) for x in flat]}
+    return {"t": "nd", "dt": dt, "sh": sh, "v": [repr(float(x)) for x in flat]}
+
+
 def npint(x, dt="int64"):
     return {"t": "nps", "dt": dt, "r": str(int(x))}
 
